@@ -27,7 +27,9 @@ pub fn origin_of(module: &str) -> Origin {
         Origin::Printer
     } else if module.ends_with("::interrupts") {
         Origin::Service
-    } else if module.ends_with("::driver::driver") {
+    } else if module.ends_with("::driver::driver") || module.ends_with("::driver::error_helper") || module.ends_with("::driver::preprocess") {
+        // the run loop and the two helper files it has always had for locating and reporting lines:
+        // a message that cites a line may be composed and written there (one helper for all of them)
         Origin::RunLoop
     } else if module.contains("::driver::") {
         // any other file of the driver that writes: a helper of the printer (dumps moved into a
